@@ -36,6 +36,9 @@ var checks = map[string]*check{
 			{Name: "hand-written-peer", Kind: "explore", Scen: "mux_route", Inst: inst("rawpeer", "rawpeer"), Depths: depths([]int{1}, []int{1, 2}), Budget: budget(2*time.Minute, 10*time.Minute)},
 			// go-plugin's own RPCClient as host, 320 dials at once to a hand-written plugin on a stock yamux session that is slow to accept
 			// dispenses on a connection whose plugin-side id counter is about to wrap (or to cross a byte boundary)
+			// the MuxBroker bodies of the race pass (free-running under the race detector): unsynchronised access to the pending
+			// table is invisible to a cooperative scheduler
+			{Name: "race-pass", Kind: "enum", Bin: "e3.test", Test: "TestRacePass", Env: []string{"VERIF_RACE_BODIES=TestRace_MuxBroker,TestRace_MuxBrokerUnmatched"}},
 			{Name: "dispense-id-wrap", Kind: "explore", Scen: "dispense_ids", Depths: depths([]int{0, 1}, []int{0, 1, 2}), Budget: budget(2*time.Minute, 10*time.Minute)},
 			{Name: "stock-yamux-peer", Kind: "explore", Scen: "mux_route", Inst: inst("backlog", "backlog"), Depths: depths([]int{0}, []int{0}), Budget: budget(3*time.Minute, 5*time.Minute)},
 			// two ids at once with fine-grained preemption (every function entry of go-plugin is a scheduling point)
